@@ -327,6 +327,14 @@ func (k Keeper) CloseFixedPriceAuction(ctx context.Context, auction types.Auctio
 	return nil
 }
 
+// matchedPriceOf returns the clearing price used by the matching, zero if nothing was matched.
+func matchedPriceOf(mInfo MatchingInfo) math.LegacyDec {
+	if mInfo.MatchedPrice.IsNil() || mInfo.MatchedLen == 0 {
+		return math.LegacyZeroDec()
+	}
+	return mInfo.MatchedPrice
+}
+
 // CloseBatchAuction closes a batch auction.
 func (k Keeper) CloseBatchAuction(ctx context.Context, auction types.AuctionI) error {
 	ba, ok := auction.(*types.BatchAuction)
@@ -347,6 +355,7 @@ func (k Keeper) CloseBatchAuction(ctx context.Context, auction types.AuctionI) e
 	// Close the auction when maximum extended round + 1 is the same as the length of end times
 	// If the value of MaxExtendedRound is 0, it means that an auctioneer does not want have an extended round
 	if ba.MaxExtendedRound+1 == uint32(len(auction.GetEndTimes())) {
+		ba.MatchedPrice = matchedPriceOf(mInfo)
 		if err := k.AllocateSellingCoin(ctx, auction, mInfo); err != nil {
 			return err
 		}
@@ -381,6 +390,7 @@ func (k Keeper) CloseBatchAuction(ctx context.Context, auction types.AuctionI) e
 		return k.ExtendRound(ctx, ba)
 	}
 
+	ba.MatchedPrice = matchedPriceOf(mInfo)
 	if err := k.AllocateSellingCoin(ctx, auction, mInfo); err != nil {
 		return err
 	}
